@@ -156,7 +156,6 @@ const Prelude = `
 (declare-fun str_at (Str Int) Int)
 (declare-fun str_sub (Str Int Int) Str)
 (declare-fun str_cat (Str Str) Str)
-(declare-fun str_lt (Str Str) Bool)
 (declare-const str_empty Str)
 (assert (= (str_len str_empty) 0))
 (declare-fun saddr (Slice Int) Ref)
@@ -385,6 +384,12 @@ func selOf(sel string, v Term) Term {
 }
 
 var selIndex = map[string]int{}
+
+// StrLtDecl: the lexicographic order on strings as an uninterpreted strict total order (declared on demand).
+const StrLtDecl = `(declare-fun str_lt (Str Str) Bool)
+(assert (forall ((x Str) (y Str)) (! (=> (str_lt x y) (not (str_lt y x))) :pattern ((str_lt x y)))))
+(assert (forall ((x Str) (y Str)) (! (or (str_lt x y) (str_lt y x) (= x y)) :pattern ((str_lt x y)))))
+(assert (forall ((x Str) (y Str) (z Str)) (! (=> (and (str_lt x y) (str_lt y z)) (str_lt x z)) :pattern ((str_lt x y) (str_lt y z)))))`
 
 // Trunc8Decl: decimal Truncate(8) as an uninterpreted function with its axioms (declared on demand).
 const Trunc8Decl = `(declare-fun trunc8 (Real) Real)
